@@ -321,21 +321,21 @@ Definition monitor (i : input) (o : output) : bool :=
 
 Definition known (i : input) : N := 0.
 
-(* Branch tag: 0 no two-handle operation / 1 two-handle ops on distinct locks only /
-   2 eq on handles sharing a lock / 3 extend on handles sharing a lock
-   (3 wins over 2). *)
+(* Branch tag, a bit set over the two-handle operations of the history:
+   1 extend/== on handles with distinct locks, 2 == on handles sharing a lock,
+   4 extend on handles sharing a lock; 0 = no two-handle operation. *)
 Fixpoint tag_from (s : state) (ops : list op) (acc : N) : N :=
   match ops with
   | [] => acc
   | o :: r =>
       let t := match o with
-               | OExtend h1 h2 => if Nat.eqb (lk s h1) (lk s h2) then 3 else 1
+               | OExtend h1 h2 => if Nat.eqb (lk s h1) (lk s h2) then 4 else 1
                | OEq h1 h2 => if Nat.eqb (lk s h1) (lk s h2) then 2 else 1
                | _ => 0
                end in
       match step true s o with
-      | (Some s', _) => tag_from s' r (N.max acc t)
-      | (None, _) => N.max acc t
+      | (Some s', _) => tag_from s' r (N.lor acc t)
+      | (None, _) => N.lor acc t
       end
   end.
 Definition tag (i : input) : N := tag_from init i 0.
